@@ -47,7 +47,15 @@ def gen_path(rnd):
 
 def gen_spec(rnd, depth, stats):
     spec = {"reads": [[gen_path(rnd), rnd.choice([None, "dflt", 0])] for _ in range(rnd.randint(1, 3))],
-            "children": [], "dflt": rnd.random() < 0.4}
+            "children": [], "dflt": rnd.random() < 0.5}
+    if spec["dflt"] and rnd.random() < 0.6:
+        # the defaulted child carries its own override: its default must see the overridden context, not the parent's
+        c1 = gen_ctx(rnd)
+        if rnd.random() < 0.6:
+            c1["k"] = {"sub": rnd.choice([1, 2, "over", None])}     # the path the default reads
+        spec["dflt_opts"] = {"ctx": c1} if rnd.random() < 0.5 else {"ctx_kwargs": c1}
+        stats["overrides"] += 1
+        stats["dflt_overrides"] = stats.get("dflt_overrides", 0) + 1
     if depth > 0:
         for _ in range(rnd.randint(0, 3 if depth > 1 else 2)):
             opts = {}
@@ -108,6 +116,8 @@ def run_case(ctx, rnd, where):
     key = engine.outcome_key(out)
     ctx.count("jobs_reading_context", len(c.job_order))
     ctx.count("config_mode_" + mode)
+    if stats.get("dflt_overrides"):
+        ctx.count("cases_with_overridden_defaulted_child")
     if stats["overrides"] >= 2:
         ctx.nontrivial([spec, cfg_ctx, run_ctx, root_opts])
     if key not in exp:
